@@ -556,6 +556,11 @@ class SV:
         if not self.sym:
             with np.errstate(all='ignore'):
                 return SV(np.sqrt(_f(self.c)))
+        # sqrt(x*x) = |x| (syntactic squares; keeps e.g. max_field = sqrt(0 + fy^2) tied to fy)
+        if self.d is None and z3.is_app(self.n) and self.n.decl().kind() == z3.Z3_OP_MUL:
+            ch = self.n.children()
+            if len(ch) == 2 and ch[0].eq(ch[1]):
+                return abs(SV(t=ch[0]))
         if self < 0:
             return SV(float('nan'))
         st = z3.simplify(self.t)
@@ -629,6 +634,11 @@ class SV:
         r = SV(t=v)
         E.memo[key] = (r, t)
         E.exp_args[v.get_id()] = self
+        for (a2, v2) in E.exp_atoms[-6:]:
+            if a2.d is None and self.d is None:
+                E.defs.append(z3.Implies(self.n == a2.n, v == v2))
+                E.defs.append(z3.Implies(self.n <= a2.n, v <= v2))
+                E.defs.append(z3.Implies(self.n >= a2.n, v >= v2))
         E.exp_atoms.append((self, v))
         E.signs[v.get_id()] = 1
         E.keep.append(v)
